@@ -48,16 +48,19 @@ Proof.
 Qed.
 Print Assumptions C12_merge.
 
-(* the columns a field wildcard stands for: sorted by (name, type), without repetition, and exactly the merged fields
-   plus - unless the statement has a GROUP BY wildcard - the tags it does not already group by *)
+(* the columns a field wildcard stands for: sorted by (name, type), without repetition, and exactly the merged fields -
+   without the tags among them that the statement groups by (a subquery can select a tag) - plus, unless the statement
+   has a GROUP BY wildcard, the tags it does not already group by *)
 Theorem C12_columns : forall has_dw dims fs ds,
+  let fs' := drop_grouped_tags has_dw dims fs in
   StronglySorted ref_le (wild_columns has_dw dims fs ds) /\
   (NoDup (keys fs) -> NoDup ds -> NoDup (wild_columns has_dw dims fs ds)) /\
-  (fs <> [] -> forall k t,
+  (forall k t, In (k, t) fs' <-> In (k, t) fs /\ (has_dw = true \/ t <> DTag \/ existsb (is_varref_named k) dims = false)) /\
+  (fs' <> [] -> forall k t,
      In (k, t) (wild_columns has_dw dims fs ds) <->
-     In (k, t) fs \/ (has_dw = false /\ t = DTag /\ In k ds /\ existsb (is_varref_named k) dims = false /\ is_tag_field fs k = false)).
+     In (k, t) fs' \/ (has_dw = false /\ t = DTag /\ In k ds /\ existsb (is_varref_named k) dims = false /\ is_tag_field fs' k = false)).
 Proof.
-  intros. split; [apply wild_columns_sorted|split; [apply wild_columns_nodup|intros H k t; apply wild_columns_in; exact H]].
+  intros. split; [apply wild_columns_sorted|split; [apply wild_columns_nodup|split; [intros k t; apply drop_grouped_in|intros H k t; apply wild_columns_in; exact H]]].
 Qed.
 Print Assumptions C12_columns.
 
@@ -132,6 +135,30 @@ Proof.
       try (apply Hnd; discriminate); cbn; intuition discriminate.
   - vm_compute. reflexivity.
 Qed.
+
+(* a subquery that selects a tag: the outer wildcard lists it, unless the outer statement groups by it *)
+Definition ex_sub := ex_sel [mkField (VarRef (ts "host") DUnknown) []; mkField (VarRef (ts "v1") DUnknown) []] [] [SMeasurement (ex_m "m0")].
+Example C12_example_subquery_tag :
+  match rewrite_fields_sch default_oracles ex_sch (ex_sel [mkField (Wildcard MUL) []] [] [SSubQuery ex_sub]),
+        rewrite_fields_sch default_oracles ex_sch (ex_sel [mkField (Wildcard MUL) []] [VarRef (ts "host") DUnknown] [SSubQuery ex_sub]) with
+  | Ok q1, Ok q2 => map f_expr (s_fields q1) = [VarRef (ts "host") DTag; VarRef (ts "v1") DFloat] /\
+                    map f_expr (s_fields q2) = [VarRef (ts "v1") DFloat]
+  | _, _ => False
+  end.
+Proof. vm_compute. split; reflexivity. Qed.
+
+(* known finding C12-subquery-top-tags, in the model: the tag argument of top() is an output column of the subquery
+   (ColumnNames lists it), and the wildcard over that subquery does not stand for it *)
+Definition ex_top := ex_sel [mkField (Call (ts "top") [VarRef (ts "v1") DUnknown; VarRef (ts "host") DUnknown; IntegerLit 2]) []] []
+                       [SMeasurement (ex_m "m0")].
+Theorem C12_subquery_top_tags_refuted :
+  column_names ex_top = Ok [ts "time"; ts "top"; ts "host"] /\
+  match rewrite_fields_sch default_oracles ex_sch (ex_sel [mkField (Wildcard MUL) []] [] [SSubQuery ex_top]) with
+  | Ok q' => map f_expr (s_fields q') = [VarRef (ts "top") DUnknown]
+  | _ => False
+  end.
+Proof. vm_compute. split; reflexivity. Qed.
+Print Assumptions C12_subquery_top_tags_refuted.
 
 (* known finding C12-regex-dim-drops-tags, in the model: with a regular expression as the only GROUP BY wildcard, a tag
    it does not match is neither grouped by nor selected *)
